@@ -1116,3 +1116,81 @@ Proof.
   intros r ext vals a a' o Hr Hwf Hok H. cbn [route_op] in H. rewrite (route_shape_exact _ _ Hr) in H.
   inversion H. split; [reflexivity|]. intro Hw. eapply write_all_read_back; eassumption.
 Qed.
+
+(** * Create-and-fill, NDArray indices, type names *)
+
+Lemma mapM_mapO : forall {A B} (f : A -> res B) l,
+  match mapM f l with Ok ys => mapO (fun x => to_opt (f x)) l = Some ys | _ => mapO (fun x => to_opt (f x)) l = None end.
+Proof.
+  intros A B f l. rewrite <- to_opt_mapM. destruct (mapM f l); reflexivity.
+Qed.
+
+(** the template Block::createDataArray(name, type, data, data_type, compression): when it succeeds
+    the new array abstracts to the specification's (container's extents, converted values); when it
+    fails the specification has no array - and so has the model once the write failure rolls the
+    creation back ([rollback = true]; today [create_fill_rolls_back = false]: the array stays behind) *)
+Theorem create_fill_refines : forall b elem stored c r ext vals,
+  shape_ok (route_shape r ext) ->
+  match create_fill b elem stored c r ext vals with
+  | (Some a, Ok _) => exists h, spec_create_fill elem stored r ext vals = Some h /\ R (mkSt a (Some RW)) h
+  | (oa, _) => spec_create_fill elem stored r ext vals = None /\ (b = true -> oa = None)
+  end.
+Proof.
+  intros b elem stored c r ext vals Hok. unfold create_fill, spec_create_fill.
+  set (sh := route_shape r ext) in *.
+  destruct (Nat.eqb (List.length sh) 0 || (32 <? List.length sh)%nat); [cbv beta iota; split; reflexivity|].
+  unfold write_slab_as. cbn [create a_ty].
+  destruct (conv_ok elem stored); cbn [negb].
+  - pose proof (mapM_mapO (conv_val elem stored) vals) as Hm.
+    destruct (mapM (conv_val elem stored) vals) as [vs|e|w]; cbn [bind]; rewrite Hm.
+    + pose proof (start_R stored c sh Hok) as [HRA _]. cbn [start disk] in HRA.
+      pose proof (write_agree _ _ (repeat 0 (List.length sh)) sh vs HRA) as Hw.
+      replace (ro_mode (spec_start stored sh)) with false in Hw by reflexivity.
+      destruct (write_slab false (create stored c sh) (repeat 0 (List.length sh)) sh vs) as [a1|e|w]; cbv beta iota.
+      * destruct Hw as (h' & Hw & HR' & Hm'). exists h'. split; [assumption|]. split; [assumption|]. cbn [sess]. rewrite Hm'. reflexivity.
+      * destruct b; cbv beta iota; (split; [assumption|]); intro Hb; (reflexivity || discriminate).
+      * destruct b; cbv beta iota; (split; [assumption|]); intro Hb; (reflexivity || discriminate).
+    + destruct b; cbv beta iota; (split; [reflexivity|]); intro Hb; (reflexivity || discriminate).
+    + destruct b; cbv beta iota; (split; [reflexivity|]); intro Hb; (reflexivity || discriminate).
+  - destruct (slab_sel (a_shape (create stored c sh)) (repeat 0 (List.length sh)) sh) as [p|e|w]; cbn [bind];
+      destruct b; cbv beta iota; (split; [reflexivity|]); intro Hb; (reflexivity || discriminate).
+Qed.
+
+(** create-and-fill without a type override round-trips: the values read back are the container's *)
+Theorem create_fill_round_trip : forall b t c r ext vals a,
+  shape_ok (route_shape r ext) ->
+  create_fill b t t c r ext vals = (Some a, Ok tt) ->
+  a_shape a = route_shape r ext /\ (Forall (fun v => conv_val t t v = Ok v) vals) /\
+  read_slab a (repeat 0 (List.length (route_shape r ext))) (route_shape r ext) = Ok vals.
+Proof.
+  intros b t c r ext vals a Hok H. unfold create_fill in H.
+  set (sh := route_shape r ext) in *.
+  destruct (Nat.eqb (List.length sh) 0 || (32 <? List.length sh)%nat); [discriminate|].
+  unfold write_slab_as in H. cbn [create a_ty] in H.
+  assert (Hc : conv_ok t t = true) by (unfold conv_ok; destruct t; reflexivity). rewrite Hc in H. cbn [negb] in H.
+  assert (Hid : forall l, mapM (conv_val t t) l = Ok l).
+  { induction l as [|x l IH]; cbn [mapM]; [reflexivity|].
+    unfold conv_val at 1. replace (dtype_eqb t t) with true by (destruct t; reflexivity). cbn [bind]. rewrite IH. reflexivity. }
+  rewrite Hid in H. cbn [bind] in H.
+  destruct (write_slab false (create t c sh) (repeat 0 (List.length sh)) sh vals) as [a1|e|w] eqn:Hw;
+    [|destruct b; discriminate|destruct b; discriminate].
+  inversion H; subst a1.
+  pose proof (create_wf t c sh Hok) as Hwf.
+  destruct (write_slab_get _ _ _ _ _ Hwf Hw) as (Hsh & _).
+  split; [exact Hsh|]. split.
+  - apply Forall_forall. intros v _. unfold conv_val. replace (dtype_eqb t t) with true by (destruct t; reflexivity). reflexivity.
+  - apply (read_write_same (create t c sh)); assumption.
+Qed.
+
+(** NDArray::get / set by NDSize: inside the box the position is the row-major one *)
+Theorem nd_index_in_box : forall sh i, in_box sh i = true -> nd_index sh i = Ok (ravel sh i).
+Proof.
+  intros sh i H. unfold nd_index. rewrite (in_box_length _ _ H), Nat.eqb_refl. cbn [negb].
+  pose proof (ravel_bounds _ _ H) as Hb.
+  replace (0 <=? ravel sh i) with true by lia. replace (ravel sh i <? prod sh) with true by lia. reflexivity.
+Qed.
+
+(** string_to_data_type is a left inverse of data_type_to_string on every name the library prints *)
+Theorem dtype_names_round_trip :
+  forallb (fun n => match string_to_dtype_name n with Ok m => String.eqb m n | _ => false end) dtype_names = true.
+Proof. vm_compute. reflexivity. Qed.
